@@ -124,12 +124,12 @@ def run(ctx):
     ctx.cov["trusted_base"] = ["Coq 8.16.1 kernel + vm_compute", "no axioms", "python harness",
                                "Go unicode/utf8 decoding transliterated into the model, tied by correspondence", "strings.ToUpper/ToLower modelled on ASCII + caseless characters only",
                                "Go encoding/base64, fmt (one directive) and strconv fixed-precision rendering modelled, tied by correspondence"]
-    ctx.assumptions = ["regex functions (sub/gsub/regextract/=~ captures) and the sub/gsub verbs: oracle comparison with python re only (no Coq model): partial",
+    ctx.assumptions = ["regex: the Coq matcher covers literals, ., classes, ? * +, |, groups, ^ $, (?i) on generated trees printed with explicit (?:) grouping; natural pattern texts, lazy quantifiers, {n,m}, \\b, (?s)/(?m) and the sub/gsub verbs are compared with python re only; leftmost-FIRST priority among equal-start matches is by construction of the matcher + correspondence (no independent ordered semantics)",
                        "printf: %g/%G, %_d/%_f, '#' on floats, '*'/'[n]', format-values/--ofmt are outside the Coq model (oracle only or not run); decimal text -> binary64 is done by the harness (struct.pack)",
                        "digest models are the standards (RFC 1321, FIPS 180-4) in Gallina, pinned by their test vectors; no cryptographic claim",
                        "full Unicode case mapping is outside the model"]
     forbidden_gate(ctx, ["Base", "C15"])   # includes ModelCodec/ModelHash/ModelFmt/ModelVerbs and their proofs
-    ok, why = check_props(ctx, "C15/Props.v", ["C15/Harness.vo", "C15/Harness2.vo", "C15/Proofs.vo", "C15/Utf8Proofs.vo", "C01/ProofsJson.vo"])
+    ok, why = check_props(ctx, "C15/Props.v", ["C15/Harness.vo", "C15/Harness2.vo", "C15/RegexHarness.vo", "C15/Proofs.vo", "C15/Utf8Proofs.vo", "C01/ProofsJson.vo"])
     rng = ctx.rng
     terms, meta, oracle_bad = [], [], []
 
@@ -388,6 +388,8 @@ def run(ctx):
         c15_fmt.run_part(ctx, case, bad, mlr_rows, P, ref_fmtnum)
         from checks import c15_verbs
         c15_verbs.run_part(ctx, case, bad, mlr_rows, P)
+        from checks import c15_regex
+        rx_terms, rx_meta = c15_regex.run_part(ctx, bad, mlr_rows, P)
     for i in (0, len(meta) // 3, len(meta) // 2, len(meta) - 1):
         ctx.sample(meta[i])
     if not ok:
@@ -399,6 +401,7 @@ def run(ctx):
     with ctx.timed("coq_cases"):
         badi, err = coq_eval_mismatches(ctx, "C15", "C15.Model C15.Harness C15.Harness2", "Z * Z * Z * bytes * bytes * bytes * bytes", "chk2", terms, shard=len(terms) // NSHARD + 1)
     ctx.cov["correspondence"] = {"cases": len(terms), "mismatches": len(badi)}
+    c15_regex.evaluate(ctx, rx_terms, rx_meta)
     if err:
         ctx.violation({"broken": "correspondence-evaluation", "detail": err[-2000:]}, found_input=False)
     rep = 0
